@@ -76,6 +76,9 @@ func resolveSecretsEnvironment(dict map[string]any, environment types.Mapping) {
 		}
 		env, ok := secret["environment"].(string)
 		if !ok {
+			// no longer sourced from a variable (a later layer reset `environment`): the value an
+			// earlier resolution carried along does not belong to this secret anymore
+			delete(secret, types.SecretConfigXValue)
 			continue
 		}
 		if found, ok := environment[env]; ok {
@@ -99,6 +102,8 @@ func resolveConfigsEnvironment(dict map[string]any, environment types.Mapping) {
 		}
 		env, ok := config["environment"].(string)
 		if !ok {
+			// as for secrets: a config that a later layer turned into a file or inline config
+			delete(config, types.SecretConfigXValue)
 			continue
 		}
 		if found, ok := environment[env]; ok {
